@@ -9,4 +9,5 @@ for p in $(jq -r '.checks[].property_id' MANIFEST.json); do
   VERIF_SEED=$SEED ./check $p $TIER > $VERIF_WORK/build/run_$p.log 2>&1; rc=$?
   echo "$p rc=$rc $(($(date +%s)-s))s $(grep -c '^VIOLATION' $VERIF_WORK/build/run_$p.log) violations: $(tail -1 $VERIF_WORK/build/run_$p.log)"
   grep '^VIOLATION\|^violation' $VERIF_WORK/build/run_$p.log | head -5
+  [ $rc = 2 ] && grep -i 'ended without\|abnormal\|broken\|watchdog\|died\|build failed' $VERIF_WORK/build/run_$p.log | head -5
 done
